@@ -230,6 +230,23 @@ theorem decode_work_bound_partial (c : Nat) (file : Bytes)
     cases hf'
     omega
 
+/-! ### the driver's verdict -/
+
+/-- What lean/Driver/C19.lean prints for a file (the guarded reader, which refuses to materialise a
+    read far beyond the end of the file) is the model's verdict `openVerdict` whenever it is a verdict
+    at all: same header and layout, or the same error. -/
+theorem driver_verdict_sound (limit : Nat) (file : Bytes) :
+    (∀ h info w, openGuarded limit file = .ok h info w → openVerdict file = .ok (h, info)) ∧
+    (∀ e w, openGuarded limit file = .err e w → openVerdict file = .error e) :=
+  openGuarded_sound limit file
+
+/-- … and when it answers BIG instead, the unguarded decoder consumes at least up to there: more
+    than `limit` bytes beyond the end of the file. -/
+theorem driver_big_sound (total limit : Nat) (f : Fmt) (s : Bytes) (b : Bool) (m : Nat) (w : Bool)
+    (h : guardRun total limit (getBody f) s 4 false = .big b m w) :
+    total + limit < m ∧ m ≤ 4 + consumed (getBody f) s :=
+  guardRun_big total limit (getBody f) s 4 false b m w h
+
 /-! ### non-vacuity -/
 
 /-- a small valid file: CDF-1, no dimensions, one global attribute "a" = int {7}, no variables -/
@@ -263,6 +280,7 @@ example : Inv tiny 36 { buf := ztake 36 tiny, pos := 4, off := 36 } (tiny.drop 4
 def obligations : List String := [
   "decode_total", "copy_loop_terminates", "window_safe_general", "window_safe",
   "decode_ok_wf", "decodeChunked_ok_wf", "open_ok_wf",
-  "decode_work_bound_counterexample", "decode_work_unbounded", "decode_alloc_unbounded", "decode_work_bound_partial"
+  "decode_work_bound_counterexample", "decode_work_unbounded", "decode_alloc_unbounded", "decode_work_bound_partial",
+  "driver_verdict_sound", "driver_big_sound"
 ]
 end PnVerif.Props.C19
